@@ -19,7 +19,7 @@ PLAN = {
     'C02': ('TraceDiscrete', 'TraceDiscrete.cfg', 'disc.ndjson', {}, {'hist': ['counts'], 'ticket': ['out'], 'geo': ['out'], 'bf': ['out'], 'sgeo': ['out']}),
     'C12': ('TraceGeom', 'TraceGeom.cfg', 'geom_0.ndjson', {}, {'lat': ['acc', 'q'], 'rand': ['nrm']}),
     'C06': ('TraceZig', 'TraceZig.cfg', 'zig_0.ndjson', {}, {'*': ['i', 'neg', 'words']}),
-    'C07': ('TraceCompose', 'TraceCompose.cfg', 'comp_0.ndjson', {}, {'r1': ['k', 'wb'], 'r3': ['got'], 'zs': ['r256']}),
+    'C07': ('TraceCompose', 'TraceCompose.cfg', 'comp_0.ndjson', {}, {'r1': ['k', 'wb'], 'r1x': ['k', 'wb'], 'r3': ['got'], 'zs': ['r256']}),
     'C11': ('TraceCompose', 'TraceCompose.cfg', 'comp_0.ndjson', {}, {'dir': ['n', 'api_same', 'w']}),
 }
 
